@@ -564,3 +564,16 @@ def run_cget_script(script, requested, supported):
     finally:
         server.shutdown()
     return result
+
+
+_GUARD = []
+
+
+def substore_guard():
+    """`Gen.Glue.subStoreRejectsUnaccepted` as regenerated from the source this run: does `_c_store_scp` reject a
+    request whose context id is not accepted before looking for a context?"""
+    if not _GUARD:
+        from translate import glue
+
+        _GUARD.append(bool(glue.sub_store_rejects_unaccepted()))
+    return _GUARD[0]
